@@ -17,7 +17,7 @@ if [ ! -d "$ISO/verif" ]; then
   git -C /verif worktree add --detach "$ISO/verif" HEAD >/dev/null 2>&1
 fi
 # bring the isolated copy to the integrator's working tree (tracked + untracked sources), reuse compiled Coq and OCaml
-rsync -a --delete --exclude .git --exclude build/icinga --exclude build/harness --exclude replays --exclude evidence /verif/ "$ISO/verif/"
+rsync -a --delete --exclude .git --exclude build/icinga --exclude build/harness --exclude 'build/vchk_*' --exclude replays --exclude evidence /verif/ "$ISO/verif/" || [ $? -eq 24 ]
 mkdir -p "$ISO/verif/evidence" "$ISO/verif/replays"
 export VERIF_REPO=$ISO/repo VERIF_ICINGA_BUILD=$ISO/icinga VERIF_BUILD=$ISO/verif/build VERIF_CCACHE=1
 export CCACHE_DIR=/var/tmp/ccache CCACHE_BASEDIR=$ISO CCACHE_NOHASHDIR=1 CCACHE_SLOPPINESS=time_macros,include_file_mtime,include_file_ctime CCACHE_MAXSIZE=20G
